@@ -443,6 +443,8 @@ pub enum Op {
     CheckGroupConsistent,
     SetApplyLimit(u64),
     SetCommittedSize(u64),
+    /// `RawNode::on_entries_fetched` with a `GetEntriesFor::SendAppend { to, term, aggressively }` context
+    OnEntriesFetched(u64, u64, bool),
 }
 
 impl Op {
@@ -457,6 +459,7 @@ impl Op {
             Op::TransferLeader(_) => "transfer_leader",
             Op::Campaign => "campaign",
             Op::Ping => "ping",
+            Op::OnEntriesFetched(..) => "on_entries_fetched",
             Op::RequestSnapshot => "request_snapshot",
             Op::ReportUnreachable(_) => "report_unreachable",
             Op::ReportSnapshot(..) => "report_snapshot",
@@ -492,6 +495,7 @@ impl Op {
             Op::ReadIndex(c) => hex(c),
             Op::TransferLeader(x) | Op::ReportUnreachable(x) | Op::CommitApply(x) | Op::Compact(x) | Op::SetApplyLimit(x) | Op::SetCommittedSize(x) => format!("{}", x),
             Op::ReportSnapshot(x, b) => format!("{} {}", x, *b as u8),
+            Op::OnEntriesFetched(to, term, a) => format!("{} {} {}", to, term, *a as u8),
             Op::ApplyConfChange(cc) => fmt_ccv2(cc),
             Op::OnPersistEntries(i, t) | Op::AdjustInflight(i, t) => format!("{} {}", i, t),
             Op::TriggerLog(b) | Op::SetBatch(b) | Op::SkipBcast(b) | Op::SetCheckQuorum(b) | Op::GroupCommit(b) => format!("{}", *b as u8),
@@ -518,6 +522,7 @@ impl Op {
             "transfer_leader" => Op::TransferLeader(t.u64()?),
             "campaign" => Op::Campaign,
             "ping" => Op::Ping,
+            "on_entries_fetched" => Op::OnEntriesFetched(t.u64()?, t.u64()?, t.b()?),
             "request_snapshot" => Op::RequestSnapshot,
             "report_unreachable" => Op::ReportUnreachable(t.u64()?),
             "report_snapshot" => Op::ReportSnapshot(t.u64()?, t.b()?),
@@ -857,6 +862,11 @@ impl NodeState {
                 rn.ping();
                 "ok".into()
             }
+            Op::OnEntriesFetched(to, term, a) => {
+                // the context object is rebuilt from its three fields (cfg-gated constructor in raft::verif::node)
+                rn.on_entries_fetched(raft::verif::node::send_append_context(*to, *term, *a));
+                "ok".into()
+            }
             Op::RequestSnapshot => unit_res(rn.request_snapshot()),
             Op::ReportUnreachable(x) => {
                 rn.report_unreachable(*x);
@@ -1135,6 +1145,8 @@ struct Sim<'a> {
     /// a node that became leader in the last call: the application may call anything right then (before the new
     /// leader's first entry is acknowledged or even persisted)
     fresh_leader: Option<usize>,
+    /// asynchronous log fetches in progress: (node, to, term, aggressively) taken from the node's storage
+    fetching: Vec<(usize, u64, u64, bool)>,
 }
 
 fn role_name(s: StateRole) -> &'static str {
@@ -1918,7 +1930,41 @@ impl<'a> Sim<'a> {
         Coverage::bump(&mut self.cov.events, "fresh_leader_calls".into());
     }
 
+    /// asynchronous log fetch: the application notices that `Storage::entries` refused a `send_append`
+    /// (LogTemporarilyUnavailable, context kept by MemStorage), fetches the entries — which takes a while, during
+    /// which terms, roles and the membership may change — and calls `on_entries_fetched` with that context
+    fn async_fetch(&mut self) {
+        for i in 0..self.nodes.len() {
+            let Some(st) = self.nodes[i].st.as_ref() else { continue };
+            if let Some(ctx) = st.store.wl().take_get_entries_context() {
+                if let Some((to, term, a)) = raft::verif::node::send_append_context_fields(&ctx) {
+                    self.fetching.push((i, to, term, a));
+                    Coverage::bump(&mut self.cov.events, "async_fetch_started".into());
+                }
+            }
+        }
+        if self.rng2.below(1000) < 8 {
+            // the leader's storage starts answering `send_append` reads asynchronously
+            if let Some(l) = self.leader() {
+                self.call(l, Op::TriggerLog(true));
+            }
+        }
+        if !self.fetching.is_empty() && self.rng2.chance(4) {
+            let k = self.rng2.below(self.fetching.len() as u64) as usize;
+            let (i, to, term, a) = self.fetching.swap_remove(k);
+            if self.nodes[i].st.is_some() {
+                // most of the time the entries are available again when the fetch completes
+                if self.rng2.chance(70) && self.call(i, Op::TriggerLog(false)) {}
+                if self.nodes[i].st.is_some() && self.call(i, Op::OnEntriesFetched(to, term, a)) {
+                    Coverage::bump(&mut self.cov.events, "async_fetch_completed".into());
+                    self.housekeeping(i, true);
+                }
+            }
+        }
+    }
+
     fn extra_faults(&mut self) {
+        self.async_fetch();
         if let Some(i) = self.fresh_leader.take() {
             if self.rng2.chance(40) {
                 self.fresh_leader_calls(i);
@@ -2281,7 +2327,7 @@ fn cluster(seed: u64, malformed: bool, cov: &mut Coverage) -> Sim<'_> {
         let store = build_storage(&hs, &cs, snap, mine);
         nodes.push(SimNode { id, st: None, cfg, store, snap, lines: Arc::new(Mutex::new(vec![])), unreported: None, restarts: 0 });
     }
-    Sim { nodes, net: vec![], rng, cov, isolated: vec![false; total as usize], next_payload: 1, malformed, et, calls: 0, old_reads: vec![], read_dups_left: 150, rng2: Rng::new(seed ^ 0x5EED_FA17), held: vec![], fresh_leader: None }
+    Sim { nodes, net: vec![], rng, cov, isolated: vec![false; total as usize], next_payload: 1, malformed, et, calls: 0, old_reads: vec![], read_dups_left: 150, rng2: Rng::new(seed ^ 0x5EED_FA17), held: vec![], fresh_leader: None, fetching: vec![] }
 }
 
 /// `rn new` lines with damaged configurations / storages: `Config::validate`, the restore of the
